@@ -59,6 +59,20 @@ def _specialise(ctx, stmts: list, kind: str) -> list:
     The rules then look at the same shape whether the emitters are written one per kind or table-driven."""
     import copy
 
+    from ..core import special
+
+    # table lookups written inline (`{K1: a, K2: b}[kind]`, `TABLE.get(kind)`, rows of tuples) are resolved by the shared
+    # specialiser first; what follows handles the tables that need the module's constant folder
+    def _same(k_, kind=kind):
+        names = P.kind_name(ctx, k_)
+        return names == frozenset([kind])
+
+    try:
+        stmts = special.specialise(special.normalise_get_dispatch(list(stmts), "kind", X.scopes_of(ctx, ctx.fn(RECURSE))), "kind",
+                                   "NodeKind." + kind, X.scopes_of(ctx, ctx.fn(RECURSE)), same_key=_same)
+    except Exception:  # noqa: BLE001 -- the shared pass is an optimisation of shape only
+        pass
+
     def subst(e, env):
         class T(ast.NodeTransformer):
             def visit_Name(self, n):
@@ -375,12 +389,23 @@ def rule_r3(ctx) -> RuleResult:
     ta = ctx.fn("node_expand.to_attrs")
     from ..core import strtpl
     valued = []
-    for n in walk_no_nested(ta):
-        if isinstance(n, ast.Call) and isinstance(n.func, ast.Attribute) and n.func.attr in ("append", "extend") and n.args:
-            tpl = strtpl.template(n.args[0])
-            hs = strtpl.holes(tpl)
-            if any(before.endswith(("=", '="', "='")) for before, _, _ in hs):
-                valued.append((n, hs))
+    # to_attrs and the module-level helpers it calls (an extracted `_attr_to_str(k, v)`): texts appended or returned
+    m_ne = ctx.index.mod("node_expand")
+    helpers = [m_ne.funcs[c.func.id] for c in ast.walk(ta) if isinstance(c, ast.Call) and isinstance(c.func, ast.Name) and c.func.id in m_ne.funcs
+               and c.func.id not in ("to_attrs", "to_wikitext", "to_html", "to_text")]
+    for fn_ in [ta] + helpers:
+        for n in walk_no_nested(fn_):
+            texts = []
+            if isinstance(n, ast.Call) and isinstance(n.func, ast.Attribute) and n.func.attr in ("append", "extend") and n.args:
+                texts.append(n.args[0])
+            elif isinstance(n, ast.Return) and n.value is not None and fn_ is not ta:
+                texts.append(n.value)
+            for tx in texts:
+                hs = strtpl.holes(strtpl.template(tx))
+                if any(before.endswith(("=", '="', "='")) for before, _, _ in hs):
+                    valued.append((n, hs, fn_))
+    valued_fn = {id(n): f_ for n, _, f_ in valued}
+    valued = [(n, hs) for n, hs, _ in valued]
     if not valued:
         raise AnalysisError("to_attrs: the statement that emits name=value was not recognised")
     for n, hs in valued:
@@ -393,7 +418,7 @@ def rule_r3(ctx) -> RuleResult:
             if isinstance(hole, ast.Call) and unparse(hole.func).endswith(("quote_plus", "quote")):
                 escaped = True
             elif isinstance(hole, ast.Name):
-                vals = [a_.value for a_ in walk_no_nested(ta) if isinstance(a_, ast.Assign) and a_.lineno <= n.lineno
+                vals = [a_.value for a_ in walk_no_nested(valued_fn.get(id(n), ta)) if isinstance(a_, ast.Assign) and a_.lineno <= n.lineno
                         and any(isinstance(t, ast.Name) and t.id == hole.id for t in a_.targets)]
                 escaped = bool(vals) and isinstance(vals[-1], ast.Call) and unparse(vals[-1].func).endswith(("quote_plus", "quote"))
             if quoted and escaped:
@@ -470,8 +495,20 @@ class _Content(Flow):
         empty, emitted = st
         t = test
         neg = False
-        if isinstance(t, ast.UnaryOp) and isinstance(t.op, ast.Not):
-            t, neg = t.operand, True
+        while True:
+            if isinstance(t, ast.UnaryOp) and isinstance(t.op, ast.Not):
+                t, neg = t.operand, not neg
+            elif isinstance(t, ast.Call) and isinstance(t.func, ast.Name) and t.func.id == "bool" and len(t.args) == 1:
+                t = t.args[0]   # bool(x) tests what x tests
+            elif isinstance(t, ast.Compare) and len(t.ops) == 1 and isinstance(t.left, ast.Call) and unparse(t.left.func) == "len" \
+                    and len(t.left.args) == 1 and isinstance(t.comparators[0], ast.Constant) \
+                    and ((isinstance(t.ops[0], (ast.Gt, ast.NotEq)) and t.comparators[0].value == 0) or (isinstance(t.ops[0], ast.GtE) and t.comparators[0].value == 1)):
+                t = t.left.args[0]   # len(x) > 0
+            elif isinstance(t, ast.Compare) and len(t.ops) == 1 and isinstance(t.left, ast.Call) and unparse(t.left.func) == "len" \
+                    and len(t.left.args) == 1 and isinstance(t.comparators[0], ast.Constant) and isinstance(t.ops[0], ast.Eq) and t.comparators[0].value == 0:
+                t, neg = t.left.args[0], not neg   # len(x) == 0
+            else:
+                break
         if self._is_fld(t):
             tr, fa = (False, emitted), (True, emitted)
             return ([fa], [tr]) if neg else ([tr], [fa])
@@ -647,5 +684,110 @@ def rule_r7(ctx) -> RuleResult:
     return c16.paired_counter_findings(ctx, "C19.R7", only_module="node_expand")
 
 
+def rule_r9(ctx) -> RuleResult:
+    """Writer/reader agreement on the separator between a cell's (or caption's) attributes and its content.  The reader is the
+    branch of table_cell_fn that, on a mid-line token equal to a constant, takes the single text child collected so far as the
+    attribute section of a caption / header cell / data cell; the writer is the emitter arm of those kinds.  Whatever text the
+    emitter writes between `to_attrs(node)` and the content has to be that token -- for every kind, the header cell included
+    (`! a="1" | x`, not `! a="1" ! x`)."""
+    from ..core import strtpl
+
+    rr = RuleResult("C19.R9", "attributes of cells and captions are separated from the content by the token the table parser splits at", min_instances=2)
+    fn = ctx.fn("parser.table_cell_fn")
+    reader = None
+    for n in walk_no_nested(fn):
+        if isinstance(n, ast.If) and any(isinstance(c, ast.Call) and unparse(c.func) == "parse_attrs" for b in n.body for c in ast.walk(b)):
+            toks = [c.comparators[0].value for c in ast.walk(n.test) if isinstance(c, ast.Compare) and len(c.ops) == 1 and isinstance(c.ops[0], ast.Eq)
+                    and unparse(c.left) == "token" and isinstance(c.comparators[0], ast.Constant)]
+            kinds = set()
+            for c in [x for b in n.body for x in ast.walk(b)]:
+                if isinstance(c, ast.Compare) and unparse(c.left) == "node.kind" and isinstance(c.ops[0], ast.In):
+                    kinds |= set(P.kind_name(ctx, c.comparators[0]) or [])
+            if toks and kinds:
+                reader = (toks[0], kinds)
+    if reader is None:
+        raise AnalysisError("table_cell_fn: the branch that takes the text before a mid-line token as the attribute section was not recognised")
+    sep, kinds = reader
+    rr.instances["reader"] = {"separator": sep, "kinds": sorted(kinds)}
+    arms, _ = _emitter_arms(ctx)
+    for kind in sorted(kinds):
+        arm = arms.get(kind)
+        if arm is None:
+            continue
+        seen = 0
+        for st in arm:
+            for n in ast.walk(st):
+                if not (isinstance(n, ast.Call) and unparse(n.func) == "parts.append" and n.args):
+                    continue
+                tpl = strtpl.template(n.args[0])
+                is_attrs = lambda h: not isinstance(h, str) and "to_attrs" in unparse(h)  # noqa: E731
+                idx = [i for i, p_ in enumerate(tpl) if is_attrs(p_)]
+                for i in idx:
+                    nxt = [j for j in range(i + 1, len(tpl)) if not isinstance(tpl[j], str)]
+                    if not nxt:
+                        continue
+                    between = "".join(p_ for p_ in tpl[i + 1:nxt[0]] if isinstance(p_, str))
+                    seen += 1
+                    if between.strip(" ") == sep:
+                        rr.ok(RECURSE, "{}: attributes {!r} content".format(kind, between), {"kind": kind, "between": between})
+                    else:
+                        rr.bad(Finding("C19.R9", NE, RECURSE, "emitter of {}: {!r} between the attributes and the content".format(kind, between),
+                                       "the table parser takes the text before a mid-line {!r} as the attribute section of a {}; the emitter writes "
+                                       "{!r} there, so after re-parsing the attributes are gone and their text is part of the content".format(
+                                           sep, kind, between.strip(" ")), n.lineno))
+        if seen == 0:
+            rr.informational.append({"kind": kind, "note": "attributes and content are not written by one append; not judged"})
+    if not rr.cases and not rr.findings:
+        raise AnalysisError("no emitter writes attributes and content in one text; the separator rule has nothing to decide")
+    return rr
+
+
+TEXT_ALTERING = {"strip", "lstrip", "rstrip", "replace", "lower", "upper", "title", "capitalize", "casefold", "swapcase", "removeprefix", "removesuffix",
+                 "expandtabs", "translate", "splitlines", "split"}
+
+
+def rule_r10(ctx) -> RuleResult:
+    """The serialised text of a node's children and arguments goes into the output as produced: nothing between
+    `recurse(<content>)` and `parts.append(...)` trims, replaces or re-cases it.  (White space at the start of a cell, a
+    caption or a link label is content; `| a= 1 |  x` and `| a= 1 |x` are different cells.)"""
+    rr = RuleResult("C19.R10", "serialised content is written out unaltered", min_instances=10)
+    fn = ctx.fn(RECURSE)
+    str_if = [s_ for s_ in fn.body if isinstance(s_, ast.If) and unparse(s_.test) == "isinstance(node, str)"]
+    skip = {id(n) for s_ in str_if for n in ast.walk(s_)}   # the string arm escapes [[ and ]] on purpose (R3)
+    produced = set()
+    for n in walk_no_nested(fn):
+        if isinstance(n, ast.Assign) and len(n.targets) == 1 and isinstance(n.targets[0], ast.Name) and id(n) not in skip:
+            if any(isinstance(c, ast.Call) and unparse(c.func) in ("recurse", "map") and (unparse(c.func) == "recurse" or unparse(c.args[0]) == "recurse")
+                   for c in ast.walk(n.value) if isinstance(c, ast.Call) and c.args):
+                produced.add(n.targets[0].id)
+
+    def is_content(e) -> bool:
+        if isinstance(e, ast.Name) and e.id in produced:
+            return True
+        if isinstance(e, ast.Call) and unparse(e.func) == "recurse":
+            return True
+        if isinstance(e, ast.Call) and isinstance(e.func, ast.Attribute) and e.func.attr == "join" and e.args:
+            return any(isinstance(c, ast.Call) and (unparse(c.func) == "recurse" or (unparse(c.func) == "map" and c.args and unparse(c.args[0]) == "recurse"))
+                       for c in ast.walk(e.args[0]))
+        return False
+
+    n_uses = 0
+    for n in walk_no_nested(fn):
+        if id(n) in skip:
+            continue
+        if isinstance(n, ast.Call) and isinstance(n.func, ast.Attribute) and is_content(n.func.value):
+            if n.func.attr in TEXT_ALTERING:
+                rr.bad(Finding("C19.R10", NE, RECURSE, unparse(n)[:80],
+                               "the serialised content is altered by .{}() before it is written: white space / text that belongs to the node's "
+                               "content is missing after a round trip".format(n.func.attr), n.lineno))
+            continue
+        if isinstance(n, ast.Call) and unparse(n.func) == "recurse":
+            n_uses += 1
+            rr.ok(RECURSE, "recurse(...) result used as produced (line {})".format(n.lineno))
+    if n_uses == 0:
+        raise AnalysisError("to_wikitext.recurse: no recursive serialisation call found")
+    return rr
+
+
 def run(ctx) -> list:
-    return [rule_r1(ctx), rule_r2(ctx), rule_r3(ctx), rule_r4(ctx), rule_r5(ctx), rule_r6(ctx), rule_r7(ctx), rule_r8(ctx)]
+    return [rule_r1(ctx), rule_r2(ctx), rule_r3(ctx), rule_r4(ctx), rule_r5(ctx), rule_r6(ctx), rule_r7(ctx), rule_r8(ctx), rule_r9(ctx), rule_r10(ctx)]
